@@ -31,6 +31,9 @@ type checkDef struct {
 	Level    string
 	MinEvals int // floor on observed cases: fewer is inconclusive, not "held"
 	Exhaust  bool
+	Overlay  bool // build package snaps from the AST-instrumented overlay (engine C)
+	RacePart bool // additionally run workers of a -race build with VERIF_RACE_BUILD=1 and merge them
+	RaceN    int  // number of workers of the race part
 }
 
 var defs = map[string]checkDef{
@@ -45,7 +48,8 @@ var defs = map[string]checkDef{
 	"C10": {Engine: "B", Pkg: "./engb", MinEvals: 100},
 	"C20": {Engine: "B", Pkg: "./engb", MinEvals: 100},
 	"C11": {Engine: "B", Pkg: "./engb", MinEvals: 100},
-	"C12": {Engine: "A", Pkg: "./enga", MinEvals: 30000},
+	"C06": {Engine: "C", Pkg: "./engc", MinEvals: 300, Overlay: true, RacePart: true, RaceN: 8},
+	"C12": {Engine: "A", Pkg: "./enga", MinEvals: 30000, RacePart: true, RaceN: 4},
 	"C14": {Engine: "A", Pkg: "./enga", MinEvals: 1000},
 	"C15": {Engine: "A", Pkg: "./enga", MinEvals: 1000},
 	"C16": {Engine: "A", Pkg: "./enga", MinEvals: 1000},
@@ -92,6 +96,17 @@ func build(def checkDef, race bool) (string, error) {
 		args[len(args)-1] = out
 		args = append(args, "-modfile="+altMod)
 	}
+	if def.Overlay {
+		repo := "/repo"
+		if alt := os.Getenv("VERIF_REPO"); alt != "" {
+			repo = alt
+		}
+		ov, err := instrument(repo)
+		if err != nil {
+			return "", err
+		}
+		args = append(args, "-overlay="+ov)
+	}
 	args = append(args, def.Pkg)
 	cmd := exec.Command("go", args...)
 	cmd.Dir = filepath.Join(home, "harness")
@@ -102,6 +117,42 @@ func build(def checkDef, race bool) (string, error) {
 		return "", fmt.Errorf("build failed: %v\n%s", err, buf.String())
 	}
 	return out, nil
+}
+
+// instrument runs the AST rewriter over the current sources of package snaps and
+// returns the overlay file. The check is inconclusive when the instrumentation
+// did not bite (no read site, no write site or no lock site).
+func instrument(repo string) (string, error) {
+	bin := filepath.Join(home, ".build", "instrument")
+	cmd := exec.Command("go", "build", "-o", bin, "./cmd/instrument")
+	cmd.Dir = filepath.Join(home, "harness")
+	cmd.Env = goEnv()
+	if out, err := cmd.CombinedOutput(); err != nil {
+		return "", fmt.Errorf("building the instrumenter failed: %v\n%s", err, out)
+	}
+	outdir := filepath.Join(home, ".build", fmt.Sprintf("instr-%x", vkit.Hash(repo)))
+	os.RemoveAll(outdir)
+	out, err := exec.Command(bin, repo, outdir).Output()
+	if err != nil {
+		return "", fmt.Errorf("instrumenter failed: %v", err)
+	}
+	var sites []struct{ Site, Kind string }
+	json.Unmarshal(out, &sites)
+	var rd, wr, lk bool
+	for _, s := range sites {
+		switch {
+		case s.Kind == "lock" || s.Kind == "rlock":
+			lk = true
+		case strings.Contains(s.Site, "os.ReadFile") || strings.Contains(s.Site, "Scan-loop"):
+			rd = true
+		case strings.Contains(s.Site, "Fprintf") || strings.Contains(s.Site, ".Write") || strings.Contains(s.Site, "Truncate"):
+			wr = true
+		}
+	}
+	if !rd || !wr || !lk {
+		return "", fmt.Errorf("instrumentation did not bite: read site=%v write site=%v lock site=%v (%d sites)", rd, wr, lk, len(sites))
+	}
+	return filepath.Join(outdir, "overlay.json"), nil
 }
 
 type workerResult struct {
@@ -241,6 +292,21 @@ func run(prop, tier string, seed int64, onlyCase int, writeEvidence bool) int {
 		shards = 1
 	}
 	results := runWorkers(bin, prop, tier, seed, shards, onlyCase, nil)
+	if def.RacePart && (onlyCase < 0 || os.Getenv("VERIF_REPLAY_RACE") == "1") && !race {
+		rbin, err := build(def, true)
+		if err != nil {
+			fmt.Println(err)
+			die(2, "INCONCLUSIVE property=%s -race build of the harness against /repo failed", prop)
+		}
+		n := def.RaceN
+		if n == 0 {
+			n = 4
+		}
+		if onlyCase >= 0 {
+			n = 1
+		}
+		results = append(results, runWorkers(rbin, prop, tier, seed, n, onlyCase, []string{"VERIF_RACE_BUILD=1"})...)
+	}
 	return merge(prop, tier, seed, def, results, start, buildS, onlyCase, writeEvidence)
 }
 
